@@ -969,11 +969,20 @@ MDSDRV_Converter::MDSDRV_Converter(Song& song)
 	uint16_t header_size = data_base + (subroutine_list.size() + macro_track_list.size() + used_data_map.size()) * 2;
 	sequence_data.insert(sequence_data.begin(), header_size, 0x00);
 
+	// stream offsets in the track table and the pointer table are 16 bits wide
+	auto stream_offset = [&]() -> uint16_t
+	{
+		size_t offset = sequence_data.size() - data_base;
+		if(offset > 0xffff)
+			throw InputError(nullptr, "MDSDRV: sequence data too large (a stream offset does not fit in 16 bits)");
+		return offset;
+	};
+
 	// we should use something else to define the track list, i think...
 	for(auto it = track_list.begin(); it != track_list.end(); it++)
 	{
 		track_count++;
-		uint16_t offset = sequence_data.size() - data_base;
+		uint16_t offset = stream_offset();
 		sequence_data[track_header_offset++] = it->first;
 		sequence_data[track_header_offset++] = 0;
 		sequence_data[track_header_offset++] = offset >> 8;
@@ -999,7 +1008,7 @@ MDSDRV_Converter::MDSDRV_Converter(Song& song)
 
 	for(auto it = subroutine_list.begin(); it != subroutine_list.end(); it++)
 	{
-		uint16_t offset = sequence_data.size() - data_base;
+		uint16_t offset = stream_offset();
 		sequence_data[track_header_offset++] = offset >> 8;
 		sequence_data[track_header_offset++] = offset;
 
@@ -1009,7 +1018,7 @@ MDSDRV_Converter::MDSDRV_Converter(Song& song)
 
 	for(auto it = macro_track_list.begin(); it != macro_track_list.end(); it++)
 	{
-		uint16_t offset = sequence_data.size() - data_base;
+		uint16_t offset = stream_offset();
 		sequence_data[track_header_offset++] = offset >> 8;
 		sequence_data[track_header_offset++] = offset;
 
